@@ -105,3 +105,25 @@ Print Assumptions C12_layout.
 Theorem C12_threshold_covers_grace : EXPIRE_AFTER <= RECLAIM_AGE.
 Proof. exact threshold_covers_grace. Qed.
 Print Assumptions C12_threshold_covers_grace.
+
+(* ---- finding D13: the stamp the cascade writes is the maximum clamped one epoch ahead; it never decodes
+   two epochs ahead (a residue there is the alias of a 14-epoch-old stamp and reads as ancient one epoch earlier) *)
+Theorem C12_child_stamp_not_ahead :
+  forall c a1 a2 a3 : Z,
+       epoch_ok c ->
+       STAMP_CLAMPED = true ->
+       14 <= c ->
+       0 <= a1 < 16 ->
+       0 <= a2 < 16 ->
+       0 <= a3 < 16 ->
+       decode c (child_stamp c a1 a2 a3 mod 16) <= c + 1 /\
+       decode c (child_stamp c a1 a2 a3 mod 16) =
+       Z.min (c + 1) (Z.max (decode c a1) (Z.max (decode c a2) (decode c a3))).
+Proof. exact ModularP.child_stamp_not_ahead. Qed.
+Print Assumptions C12_child_stamp_not_ahead.
+
+Theorem C12_stamp_clamped_now :
+  STAMP_CLAMPED = true.
+Proof. exact ModularP.stamp_clamped_now. Qed.
+Print Assumptions C12_stamp_clamped_now.
+
